@@ -368,9 +368,14 @@ func forRof(f *forExpander) forStateFn {
 }
 
 func forEmitConsumeStream(f *forExpander) forStateFn {
-	for f.nextToken.typ != tokEOF {
+	// an error token ends the input just like EOF does: next() does not
+	// advance past either
+	for f.nextToken.typ != tokEOF && f.nextToken.typ != tokError {
 		f.emit(f.nextToken)
 		f.next()
+	}
+	if f.nextToken.typ == tokError {
+		f.emit(f.nextToken)
 	}
 	return nil
 }
